@@ -121,6 +121,37 @@ macro_rules! op {
             }
         }
     }};
+    (slice1, $a:ident, $s:ident) => {{
+        op!(@slicek 1, $a, $s)
+    }};
+    (slice2, $a:ident, $s:ident) => {{
+        op!(@slicek 2, $a, $s)
+    }};
+    (slice3, $a:ident, $s:ident) => {{
+        op!(@slicek 3, $a, $s)
+    }};
+    (@slicek $k:expr, $a:ident, $s:ident) => {{
+        let (x, y) = ($a.read_slice($k), $s.read_slice($k));
+        assert_eq!(cls(&x), cls(&y));
+        if let (Ok(x), Ok(y)) = (x, y) {
+            assert_eq!(x.len(), y.len());
+            let mut i = 0;
+            while i < $k {
+                assert_eq!(x[i], y[i]);
+                i += 1;
+            }
+        }
+    }};
+    (eor2, $a:ident, $s:ident) => {{
+        if $s.check_eor(2).is_ok() {
+            assert!($a.check_eor(2).is_ok());
+        }
+    }};
+    (eor4, $a:ident, $s:ident) => {{
+        if $s.check_eor(4).is_ok() {
+            assert!($a.check_eor(4).is_ok());
+        }
+    }};
     (eor, $a:ident, $s:ident) => {{
         // the adapter may be optimistic, but must never report missing data that is available
         let k: usize = kani::any();
@@ -168,45 +199,41 @@ macro_rules! c27_harness {
 //  S5: u16, u16, peek, has_more                S6: check_eor(k), u32, has_more, u8
 //  S7: bool, arr3, usize                       S8: slice(k), u16, peek, u64
 // ---- quick tier: every content length 0..=4 x every chunk schedule (1+1+2+4+8 = 16 runs per sequence) -------------
-//@ harness=c27__s1_len0to4 tier=quick kind=prove cap=1500 :: S1 [slice(k),u8,slice(k),more]: adapter == slice reader (values and error kinds), contents symbolic, lengths 0..=4 x all 16 chunk schedules
-c27_harness!(c27__s1_len0to4, 0, 4, 12, [slice, u8, slice, more]);
-//@ harness=c27__s2_len0to4 tier=quick kind=prove cap=1500 :: S2 [peek,u8,u16,more,u32], lengths 0..=4 x all schedules
-c27_harness!(c27__s2_len0to4, 0, 4, 12, [peek, u8, u16, more, u32]);
-//@ harness=c27__s3_len0to4 tier=quick kind=prove cap=1500 :: S3 [u8,slice(k),arr3,eor(k)], lengths 0..=4 x all schedules
-c27_harness!(c27__s3_len0to4, 0, 4, 12, [u8, slice, arr3, eor]);
-//@ harness=c27__s4_len0to4 tier=quick kind=prove cap=1500 :: S4 [usize,u8,slice(k),u8], lengths 0..=4 x all schedules
-c27_harness!(c27__s4_len0to4, 0, 4, 12, [usize, u8, slice, u8]);
-//@ harness=c27__s5_len0to4 tier=quick kind=prove cap=1500 :: S5 [u16,u16,peek,more], lengths 0..=4 x all schedules
-c27_harness!(c27__s5_len0to4, 0, 4, 12, [u16, u16, peek, more]);
-//@ harness=c27__s6_len0to4 tier=quick kind=prove cap=1500 :: S6 [eor(k),u32,more,u8], lengths 0..=4 x all schedules
-c27_harness!(c27__s6_len0to4, 0, 4, 12, [eor, u32, more, u8]);
-//@ harness=c27__s7_len0to4 tier=quick kind=prove cap=1500 :: S7 [bool,arr3,usize], lengths 0..=4 x all schedules
-c27_harness!(c27__s7_len0to4, 0, 4, 12, [bool, arr3, usize]);
-//@ harness=c27__s8_len0to4 tier=quick kind=prove cap=1500 :: S8 [slice(k),u16,peek,u64], lengths 0..=4 x all schedules
-c27_harness!(c27__s8_len0to4, 0, 4, 12, [slice, u16, peek, u64]);
+//@ harness=c27__s1_len0to2 tier=quick kind=prove cap=900 :: S1 [slice(1),u8,slice(1),more]: adapter == slice reader (values and error kinds), contents symbolic, lengths 0..=2 x all chunk schedules
+c27_harness!(c27__s1_len0to2, 0, 2, 8, [slice1, u8, slice1, more]);
+//@ harness=c27__s1_len3 tier=quick kind=prove cap=1200 :: S1, length 3, all 4 chunk schedules ([3],[1,2],[2,1],[1,1,1])
+c27_harness!(c27__s1_len3, 3, 3, 8, [slice1, u8, slice1, more]);
+//@ harness=c27__s2_len0to2 tier=quick kind=prove cap=900 :: S2 [peek,u8,u16,more,u32], lengths 0..=2 x all schedules
+c27_harness!(c27__s2_len0to2, 0, 2, 8, [peek, u8, u16, more, u32]);
+//@ harness=c27__s3_len0to2 tier=quick kind=prove cap=900 :: S3 [u8,slice(2),arr3,check_eor(2)], lengths 0..=2 x all schedules
+c27_harness!(c27__s3_len0to2, 0, 2, 8, [u8, slice2, arr3, eor2]);
+//@ harness=c27__s4_len0to2 tier=quick kind=prove cap=900 :: S4 [slice(2),u8,slice(1),u8], lengths 0..=2 x all schedules
+c27_harness!(c27__s4_len0to2, 0, 2, 8, [slice2, u8, slice1, u8]);
+//@ harness=c27__s5_len0to2 tier=quick kind=prove cap=900 :: S5 [u16,u16,peek,more], lengths 0..=2 x all schedules
+c27_harness!(c27__s5_len0to2, 0, 2, 8, [u16, u16, peek, more]);
+//@ harness=c27__s5_len3 tier=quick kind=prove cap=1200 :: S5, length 3, all 4 chunk schedules
+c27_harness!(c27__s5_len3, 3, 3, 8, [u16, u16, peek, more]);
+//@ harness=c27__s6_len0to2 tier=quick kind=prove cap=900 :: S6 [check_eor(4),u32,more,u8], lengths 0..=2 x all schedules
+c27_harness!(c27__s6_len0to2, 0, 2, 8, [eor4, u32, more, u8]);
 
-// ---- thorough tier: lengths 5, 6, 7, 8 (16 + 32 + 64 + 128 schedules) ----------------------------------------------
-//@ harness=c27__s1_len5 tier=thorough kind=prove cap=7200 :: S1, length 5, all 16 schedules
-c27_harness!(c27__s1_len5, 5, 5, 18, [slice, u8, slice, more]);
-//@ harness=c27__s2_len5 tier=thorough kind=prove cap=7200 :: S2, length 5, all 16 schedules
+// ---- thorough tier -----------------------------------------------------------------------------------------------
+//@ harness=c27__s2_len3 tier=thorough kind=prove cap=3600 :: S2, length 3, all 4 schedules
+c27_harness!(c27__s2_len3, 3, 3, 8, [peek, u8, u16, more, u32]);
+//@ harness=c27__s3_len3 tier=thorough kind=prove cap=3600 :: S3, length 3, all 4 schedules
+c27_harness!(c27__s3_len3, 3, 3, 8, [u8, slice2, arr3, eor2]);
+//@ harness=c27__s4_len3 tier=thorough kind=prove cap=3600 :: S4, length 3, all 4 schedules
+c27_harness!(c27__s4_len3, 3, 3, 8, [slice2, u8, slice1, u8]);
+//@ harness=c27__s6_len3 tier=thorough kind=prove cap=3600 :: S6, length 3, all 4 schedules
+c27_harness!(c27__s6_len3, 3, 3, 8, [eor4, u32, more, u8]);
+//@ harness=c27__s7_len0to3 tier=thorough kind=prove cap=3600 :: S7 [bool,arr3,u8,more], lengths 0..=3 x all schedules
+c27_harness!(c27__s7_len0to3, 0, 3, 8, [bool, arr3, u8, more]);
+//@ harness=c27__s8_len0to3 tier=thorough kind=prove cap=3600 :: S8 [slice(1),u16,peek,slice(3)], lengths 0..=3 x all schedules
+c27_harness!(c27__s8_len0to3, 0, 3, 8, [slice1, u16, peek, slice3]);
+//@ harness=c27__s9_len0to3 tier=thorough kind=prove cap=7200 edge :: S9 [usize,u8,slice(k<=9),u8] (symbolic slice length), lengths 0..=3 x all schedules (edge)
+c27_harness!(c27__s9_len0to3, 0, 3, 12, [usize, u8, slice, u8]);
+//@ harness=c27__s1_len4 tier=thorough kind=prove cap=7200 edge :: S1, length 4, all 8 schedules (edge)
+c27_harness!(c27__s1_len4, 4, 4, 12, [slice1, u8, slice1, more]);
+//@ harness=c27__s5_len4 tier=thorough kind=prove cap=7200 edge :: S5, length 4, all 8 schedules (edge)
+c27_harness!(c27__s5_len4, 4, 4, 12, [u16, u16, peek, more]);
+//@ harness=c27__s2_len5 tier=thorough kind=prove cap=14400 edge :: S2, length 5, all 16 schedules (edge)
 c27_harness!(c27__s2_len5, 5, 5, 18, [peek, u8, u16, more, u32]);
-//@ harness=c27__s3_len5 tier=thorough kind=prove cap=7200 :: S3, length 5, all 16 schedules
-c27_harness!(c27__s3_len5, 5, 5, 18, [u8, slice, arr3, eor]);
-//@ harness=c27__s4_len5 tier=thorough kind=prove cap=7200 :: S4, length 5, all 16 schedules
-c27_harness!(c27__s4_len5, 5, 5, 18, [usize, u8, slice, u8]);
-//@ harness=c27__s5_len5 tier=thorough kind=prove cap=7200 :: S5, length 5, all 16 schedules
-c27_harness!(c27__s5_len5, 5, 5, 18, [u16, u16, peek, more]);
-//@ harness=c27__s6_len5 tier=thorough kind=prove cap=7200 :: S6, length 5, all 16 schedules
-c27_harness!(c27__s6_len5, 5, 5, 18, [eor, u32, more, u8]);
-//@ harness=c27__s8_len5 tier=thorough kind=prove cap=7200 :: S8, length 5, all 16 schedules
-c27_harness!(c27__s8_len5, 5, 5, 18, [slice, u16, peek, u64]);
-//@ harness=c27__s1_len6 tier=thorough kind=prove cap=10800 :: S1, length 6, all 32 schedules
-c27_harness!(c27__s1_len6, 6, 6, 34, [slice, u8, slice, more]);
-//@ harness=c27__s2_len6 tier=thorough kind=prove cap=10800 :: S2, length 6, all 32 schedules
-c27_harness!(c27__s2_len6, 6, 6, 34, [peek, u8, u16, more, u32]);
-//@ harness=c27__s4_len6 tier=thorough kind=prove cap=10800 :: S4, length 6, all 32 schedules
-c27_harness!(c27__s4_len6, 6, 6, 34, [usize, u8, slice, u8]);
-//@ harness=c27__s8_len8 tier=thorough kind=prove cap=14400 edge :: S8, length 8 (u64 fits exactly), all 128 schedules (edge: may exceed the cap)
-c27_harness!(c27__s8_len8, 8, 8, 130, [slice, u16, peek, u64]);
-//@ harness=c27__s2_len7 tier=thorough kind=prove cap=14400 edge :: S2, length 7, all 64 schedules (edge)
-c27_harness!(c27__s2_len7, 7, 7, 66, [peek, u8, u16, more, u32]);
